@@ -34,21 +34,15 @@ ASSUME = [
     "which binary32 values are binary64 values (hypothesis RoundingOK, named in the theorem); that hardware "
     "rounding is such a function is checked by this correspondence, not proved",
     "non-finite float counts (inf, NaN) are covered by the round-trip oracle only (bit patterns), not by the model",
-    "pairs whose mixed operation Au rejects at compile time (implicit-conversion policy) have no Au answer to "
-    "compare; they are confirmed ill-formed by negative probes and counted in the evidence",
+    "pairs whose mixed operation Au rejects at compile time (documented implicit-conversion policy: integral common "
+    "rep and a scale factor k with 2147*k > max) have no Au answer to compare; the set is proved to be exactly that "
+    "(C17_mixed_compiles_iff), confirmed ill-formed by negative probes and counted in the evidence",
     "magnitudes with a prime base >= 2^63 are outside the model (finding F1, property C11)",
 ]
 
 # Real defects of /repo that are reproduced by this check and awaiting a decision by the coordinator.
 # Narrow structural matches only; see the final report.  (Empty: none found.)
-PENDING_FINDINGS = [
-    # F2 (property C06: `CanScaleThresholdWithoutOverflow` evaluates get_value<Rep>(k) eagerly, hard error for
-    # integral reps and an integer factor k > max(Rep)) leaks into mixed operations: e.g.
-    # `Quantity<Nano<Seconds>, int32_t>{} < std::chrono::hours{}` is ill-formed although the common type
-    # (int64 nanoseconds) passes the policy and std::chrono compiles the comparison.  Only pairs in exactly
-    # that region are filtered (both reps integral, integer factor beyond the narrower operand's rep).
-    {"kind": "pair", "observable": "compiles", "f2_region": True, "documented_policy": True, "model": "hard"},
-]
+PENDING_FINDINGS = []
 
 REPS = ["i32", "i64", "f32", "f64"]
 CTYPE = {"i32": "int32_t", "i64": "int64_t", "f32": "float", "f64": "double"}
@@ -165,14 +159,6 @@ def au_policy_oracle(r1, p1, r2, p2):
     return all(k == 1 or THRESH * k <= hi for k in (k1, k2))
 
 
-def f2_leak(r1, p1, r2, p2):
-    """Undocumented consequence of finding F2: overload resolution meets the hidden friends
-    op(Q, Q) of both operand classes and asks whether the other operand converts implicitly to Q;
-    that question is ill-formed when both reps are integral and the factor is an integer beyond Q's
-    rep."""
-    return accept_oracle(r1, p1, r2, p2) == "hard" or accept_oracle(r2, p2, r1, p1) == "hard"
-
-
 def oracle_ops(r1, p1, x1, r2, p2, x2):
     """What the eight chrono operations denote when no step overflows (exact arithmetic, rounding only
     where the common rep is a floating type).  Returns (clean_scale, {op: value | None}); a value is
@@ -211,8 +197,8 @@ def oracle_ops(r1, p1, x1, r2, p2, x2):
 
 def accept_oracle(tr, tp, sr, sp):
     """Documented implicit-conversion rule for Quantity<s*tp, tr> from the quantity corresponding to
-    duration<sr, sp>.  Returns True/False, or 'hard' in the F2 region (integral source and target,
-    integer factor that does not fit the target rep)."""
+    duration<sr, sp>.  (Before the fix of finding F2 the trait was ill-formed for an integer factor
+    beyond the target rep; now it is simply false.)"""
     ratio = Fraction(*sp) / Fraction(*tp)
     if not is_int(tr):
         return True
@@ -224,8 +210,6 @@ def accept_oracle(tr, tp, sr, sp):
         return False
     k = ratio.numerator
     hi = INT_RANGE[tr][1]
-    if k > hi:
-        return "hard"
     return THRESH * k <= hi
 
 
@@ -879,7 +863,7 @@ def explore(tier, seed, rng, wd):
     stats = {"configs": [], "types": 0, "pairs_total": 0, "pairs_compiling": 0, "pairs_rejected_by_au": 0,
              "rt_cases": 0, "rt_nonfinite_cases": 0, "op_cases": 0, "op_evaluations": 0, "clean_scale_cases": 0,
              "unclean_cases": 0, "au_ub_cases": 0, "chrono_narrowed_cases": 0, "accept_cells": 0,
-             "accept_hard_cells": 0, "accept_true": 0, "accept_false": 0, "neg_probes": 0, "by_crep": {},
+             "accept_true": 0, "accept_false": 0, "neg_probes": 0, "by_crep": {},
              "by_side": {}, "k_classes": {"both_one": 0, "one_scaled": 0, "both_scaled": 0},
              "add_sub_overflow_cases": 0, "equal_scaled_cases": 0, "nonfinite_result_cases": 0}
     samples = []
@@ -935,20 +919,12 @@ def explore(tier, seed, rng, wd):
         a, b = pr["a"], pr["b"]
         pa, pb = (a["n"], a["d"]), (b["n"], b["d"])
         pol = au_policy_oracle(a["rep"], pa, b["rep"], pb)
-        leak = f2_leak(a["rep"], pa, b["rep"], pb)
         rec = {"kind": "pair", "a": type_key(a), "b": type_key(b), "shape": side_code(pr), "observable": "compiles",
-               "model": mi["compiles"], "model_policy": mi["policy"], "documented_policy": pol, "f2_region": leak}
-        if (mi["policy"] == "ok") != pol or (mi["compiles"] == "ok") != (pol and not leak):
-            violations.append({"what": "model's mixedCompiles / policyCompiles disagree with the threshold formula",
+               "model": mi["compiles"], "documented_policy": pol}
+        if (mi["compiles"] == "ok") != pol:
+            violations.append({"what": "model's mixedCompiles disagrees with the documented threshold formula",
                                "class": "model-vs-formula-compiles", "no_input": True, "broken": "Au.Chrono.mixedCompiles",
                                "rec": rec})
-        if pol and mi["compiles"] != "ok":
-            # the documented policy admits this mixed operation (and std::chrono computes it) but it is ill-formed
-            stats["pairs_ill_formed_despite_policy"] = stats.get("pairs_ill_formed_despite_policy", 0) + 1
-            violations.append({"what": f"mixed operation between {type_key(a)} and {type_key(b)} is ill-formed although the documented "
-                                       f"conversion policy admits it (common rep {common_rep(a['rep'], b['rep'])}): hard error while "
-                                       f"overload resolution asks whether one operand converts implicitly to the other's type",
-                               "class": "oracle-compiles-f2", "rec": rec})
         (compiling if mi["compiles"] == "ok" else rejected).append(pr)
     stats["pairs_compiling"] = len(compiling)
     stats["pairs_rejected_by_au"] = len(rejected)
@@ -981,12 +957,12 @@ def explore(tier, seed, rng, wd):
     amodel = {}
     for (t, s), l in zip(((t, s) for t in types for s in types), drv.ask(areq)):
         amodel[(t["id"], s["id"])] = kv(l)
-    cells_ok, cells_hard = [], []
+    cells_ok = []
     for t in types:
         for s in types:
             m = amodel[(t["id"], s["id"])]
             want = accept_oracle(t["rep"], (t["n"], t["d"]), s["rep"], (s["n"], s["d"]))
-            wtxt = "hard" if want == "hard" else ("true" if want else "false")
+            wtxt = "true" if want else "false"
             stats["accept_cells"] += 1
             if m["dur"] != wtxt or m["qty"] != wtxt:
                 violations.append({"what": "model's durationAccepted disagrees with the documented formula (threshold 2147)",
@@ -996,8 +972,7 @@ def explore(tier, seed, rng, wd):
                 violations.append({"what": "model's chronoConvertible disagrees with chrono's documented rule",
                                    "class": "model-vs-formula-chrono", "no_input": True, "broken": "Au.Chrono.chronoConvertible",
                                    "rec": {"kind": "accept", "target": type_key(t), "source": type_key(s), "model": m}})
-            (cells_hard if m["dur"] == "hard" else cells_ok).append((t["id"], s["id"]))
-    stats["accept_hard_cells"] = len(cells_hard)
+            cells_ok.append((t["id"], s["id"]))
 
     lap("model_accept")
     # ---- build and run ---------------------------------------------------------------------------
@@ -1092,11 +1067,6 @@ def explore(tier, seed, rng, wd):
     rng.shuffle(rejected)
     for pr in rejected[:nprobe]:
         probes.append(("op", pr["a"], pr["b"], pr["side"], pr["generic"], "mixed operation rejected by the policy"))
-    hard = list(cells_hard)
-    rng.shuffle(hard)
-    for (t, s) in hard[:nprobe // 2]:
-        probes.append(("trait-dur", byid[t], byid[s], 0, False, "is_convertible<duration, Quantity> in the F2 region"))
-        probes.append(("trait-qty", byid[t], byid[s], 0, False, "is_convertible<corresponding Quantity, Quantity> in the F2 region"))
     falses = [(t, s) for (t, s) in cells_ok if amodel[(t, s)]["dur"] == "false"]
     rng.shuffle(falses)
     for (t, s) in falses[:nprobe // 2]:
@@ -1140,7 +1110,12 @@ def explore(tier, seed, rng, wd):
         "distribution": stats,
         "explore_s": round(time.time() - t0, 2),
     }
-    violations = [v for v in violations if not any(all(v["rec"].get(k) == w for k, w in pf.items()) for pf in PENDING_FINDINGS)]
+    pending = [v for v in violations if any(all(v["rec"].get(k) == w for k, w in pf.items()) for pf in PENDING_FINDINGS)]
+    violations = [v for v in violations if v not in pending]
+    stats["pending_finding_cases"] = len(pending)
+    if pending:
+        print(f"PENDING-FINDING: property={PROP} {len(pending)} case(s) match PENDING_FINDINGS in tools/p_c17.py: "
+              f"{pending[0]['what']}")
     return coverage, violations
 
 
@@ -1323,7 +1298,7 @@ def check_accept(t, s, r, m, cfg, violations, stats, samples):
     if r["cons"] != r["dur"] or r["assign"] != r["dur"]:
         violations.append({"what": "is_constructible / is_assignable from a duration differ from is_convertible",
                            "class": "oracle-accept-cons", "rec": dict(base, observable="accept-cons", impl=r)})
-    if want != "hard" and (r["dur"] == "1") != want:
+    if (r["dur"] == "1") != want:
         violations.append({"what": f"implicit acceptance {r['dur']} contradicts the documented rule (integer factor k with 2147*k <= max, "
                                    f"floats always): expected {want}", "class": "oracle-accept-formula",
                            "rec": dict(base, observable="accept-formula", impl=r)})
@@ -1428,12 +1403,9 @@ def replay(path):
         files = write_accept_harness(wd, [t, s], [(0, 1)], 1)
         exe, err = build(wd, files, compiler, std, "rp", san=False)
         if exe is None:
-            print("impl  : the traits are ill-formed (hard error)")
-            if m["dur"] != "hard":
-                print(f"VIOLATION property={PROP} replay={path} no-failing-input-found")
-                return 1
-            print("replay: model agrees (hard error region, finding F2 of property C06)")
-            return 0
+            print("impl  : the traits are ill-formed (hard error)\n", err["output"][-1500:])
+            print(f"VIOLATION property={PROP} replay={path} no-failing-input-found")
+            return 1
         rc, out, _ = run([exe])
         print("impl  :", out.strip())
         check_accept(t, s, kv(out.strip()), m, " ".join(cfg), viol, stats, samples)
